@@ -7,7 +7,8 @@
     [py_getitem] are Python's own slice semantics (Lib/PySlice.v); [WF],
     [Fits], [SWF], [spec_op], [run_spec] are the invariant and the plain-string
     interpretation of Spec/ViewSpec.v. *)
-From CG3 Require Import Lib.PyZ Lib.Val Lib.PySlice Model.View Spec.ViewSpec Proofs.ViewProofs Proofs.ViewSeqProofs.
+From CG3 Require Import Lib.PyZ Lib.Val Lib.PySlice Model.View Spec.ViewSpec Proofs.ViewProofs Proofs.ViewSeqProofs Proofs.ViewGenEq.
+From CG3gen Require ViewGen.
 
 (** * views *)
 
@@ -124,6 +125,166 @@ Proof. exact (@copy_sliced_lemma). Qed.
 Theorem abs_rel_inverse : forall v i, WF v -> 0 <= offset v -> 0 <= i < vlen v ->
   exists a, absolute_position v i false = Ok a /\ relative_position v a false = Ok i.
 Proof. exact abs_rel_inverse_lemma. Qed.
+
+(** * translator tie: the same theorems about the kernel REGENERATED from the source
+
+    [ViewGen.Old], [ViewGen.New], [ViewGen.Sdv] are written on every run by
+    harness/translators/py2gallina.py from the current text of sequence.py
+    (SliceRecordABC + SeqView), new_sequence.py (SliceRecordABC + SeqView) and
+    new_alignment.py (SeqDataView); Proofs/ViewGenEq.v proves each generated
+    function equal to the model function for all arguments.  These theorems
+    therefore hold of what the source says now; they stop compiling when an
+    edit changes the meaning of a kernel function. *)
+
+(** ** sequence.py *)
+
+(** every generated function is the model function (all arguments) *)
+Theorem gen_old_kernel_eq_model :
+  (forall v a b c, ViewGen.Old.getitem_slice v a b c = getitem_slice FSeqView v a b c) /\
+  (forall v i, ViewGen.Old.getitem_int v i = getitem_int v i) /\
+  (forall v i ib, ViewGen.Old.get_index v i ib = get_index v i ib) /\
+  (forall v i ib, ViewGen.Old.absolute_position v i ib = absolute_position v i ib) /\
+  (forall v i sf, ViewGen.Old.relative_position v i sf = relative_position v i sf) /\
+  (forall v, ViewGen.Old.len v = vlen v) /\
+  (forall n a b c off, ViewGen.Old.init n a b c off None = mk_view n a b c off) /\
+  (forall v, ViewGen.Old.parent_start v = if is_reversed v && negb (stop v <? 0) then Err E_Other else Ok (parent_start v)) /\
+  (forall v, ViewGen.Old.parent_stop v = if is_reversed v && negb (start v <? 0) then Err E_Other else Ok (parent_stop v)).
+Proof. exact OldEq.kernel_eq_model. Qed.
+
+Theorem gen_old_init_seq_len : forall n a b c off sl v, ViewGen.Old.init n a b c off sl = Ok v -> seq_len v = n.
+Proof. exact OldEq.init_seq_len. Qed.
+
+Theorem gen_old_value_init : forall (A : Type) (p : list A) n a b c off v,
+  zlen p = n -> c <> Some 0 -> ViewGen.Old.init n a b c off None = Ok v ->
+  WF v /\ value v p = py_slice p a b (step_of c).
+Proof. exact (@OldEq.wf_value_init). Qed.
+
+(** HEADLINE on the generated kernel (with the invariant, so that it chains) *)
+Theorem gen_old_value_getitem_slice : forall (A : Type) v (p : list A) a b c v',
+  WF v -> Fits v p -> c <> Some 0 ->
+  ViewGen.Old.getitem_slice v a b c = Ok v' ->
+  WF v' /\ Fits v' p /\ value v' p = py_slice (value v p) a b (step_of c).
+Proof. exact (@OldEq.value_getitem_slice). Qed.
+
+Theorem gen_old_value_getitem_int : forall (A : Type) v (p : list A) i,
+  WF v -> zlen p = seq_len v ->
+  match ViewGen.Old.getitem_int v i with
+  | Ok v' => WF v' /\ exists y, py_getitem (value v p) i = Some y /\ value v' p = [y]
+  | Err _ => py_getitem (value v p) i = None
+  end.
+Proof. exact (@OldEq.value_getitem_int). Qed.
+
+(** the asserts in parent_start / parent_stop never fire, and the reported
+    plus-strand segment is what the view displays *)
+Theorem gen_old_parent_segment : forall (A : Type) v (p : list A),
+  WF v -> zlen p = seq_len v ->
+  exists ps pe, ViewGen.Old.parent_start v = Ok ps /\ ViewGen.Old.parent_stop v = Ok pe /\
+    0 <= ps - offset v <= pe - offset v /\ pe - offset v <= seq_len v /\
+    value v p = strided (seg p (ps - offset v) (pe - offset v)) (step v).
+Proof. exact (@OldEq.parent_segment). Qed.
+
+Theorem gen_old_abs_rel_inverse : forall v i, WF v -> 0 <= offset v -> 0 <= i < ViewGen.Old.len v ->
+  exists a, ViewGen.Old.absolute_position v i false = Ok a /\ ViewGen.Old.relative_position v a false = Ok i.
+Proof. exact OldEq.abs_rel_inverse. Qed.
+
+(** ** new_sequence.py *)
+
+(** every generated function is the model function (all arguments) *)
+Theorem gen_new_kernel_eq_model :
+  (forall v a b c, ViewGen.New.getitem_slice v a b c = getitem_slice FSeqView v a b c) /\
+  (forall v i, ViewGen.New.getitem_int v i = getitem_int v i) /\
+  (forall v i ib, ViewGen.New.get_index v i ib = get_index v i ib) /\
+  (forall v i ib, ViewGen.New.absolute_position v i ib = absolute_position v i ib) /\
+  (forall v i sf, ViewGen.New.relative_position v i sf = relative_position v i sf) /\
+  (forall v, ViewGen.New.len v = vlen v) /\
+  (forall n a b c off, ViewGen.New.init n a b c off None = mk_view n a b c off) /\
+  (forall v, ViewGen.New.parent_start v = if is_reversed v && negb (stop v <? 0) then Err E_Other else Ok (parent_start v)) /\
+  (forall v, ViewGen.New.parent_stop v = if is_reversed v && negb (start v <? 0) then Err E_Other else Ok (parent_stop v)).
+Proof. exact NewEq.kernel_eq_model. Qed.
+
+Theorem gen_new_init_seq_len : forall n a b c off sl v, ViewGen.New.init n a b c off sl = Ok v -> seq_len v = n.
+Proof. exact NewEq.init_seq_len. Qed.
+
+Theorem gen_new_value_init : forall (A : Type) (p : list A) n a b c off v,
+  zlen p = n -> c <> Some 0 -> ViewGen.New.init n a b c off None = Ok v ->
+  WF v /\ value v p = py_slice p a b (step_of c).
+Proof. exact (@NewEq.wf_value_init). Qed.
+
+(** HEADLINE on the generated kernel (with the invariant, so that it chains) *)
+Theorem gen_new_value_getitem_slice : forall (A : Type) v (p : list A) a b c v',
+  WF v -> Fits v p -> c <> Some 0 ->
+  ViewGen.New.getitem_slice v a b c = Ok v' ->
+  WF v' /\ Fits v' p /\ value v' p = py_slice (value v p) a b (step_of c).
+Proof. exact (@NewEq.value_getitem_slice). Qed.
+
+Theorem gen_new_value_getitem_int : forall (A : Type) v (p : list A) i,
+  WF v -> zlen p = seq_len v ->
+  match ViewGen.New.getitem_int v i with
+  | Ok v' => WF v' /\ exists y, py_getitem (value v p) i = Some y /\ value v' p = [y]
+  | Err _ => py_getitem (value v p) i = None
+  end.
+Proof. exact (@NewEq.value_getitem_int). Qed.
+
+(** the asserts in parent_start / parent_stop never fire, and the reported
+    plus-strand segment is what the view displays *)
+Theorem gen_new_parent_segment : forall (A : Type) v (p : list A),
+  WF v -> zlen p = seq_len v ->
+  exists ps pe, ViewGen.New.parent_start v = Ok ps /\ ViewGen.New.parent_stop v = Ok pe /\
+    0 <= ps - offset v <= pe - offset v /\ pe - offset v <= seq_len v /\
+    value v p = strided (seg p (ps - offset v) (pe - offset v)) (step v).
+Proof. exact (@NewEq.parent_segment). Qed.
+
+Theorem gen_new_abs_rel_inverse : forall v i, WF v -> 0 <= offset v -> 0 <= i < ViewGen.New.len v ->
+  exists a, ViewGen.New.absolute_position v i false = Ok a /\ ViewGen.New.relative_position v a false = Ok i.
+Proof. exact NewEq.abs_rel_inverse. Qed.
+
+(** ** new_alignment.py SeqDataView *)
+
+(** every generated function is the model function (all arguments) *)
+Theorem gen_sdv_kernel_eq_model :
+  (forall v a b c, ViewGen.Sdv.getitem_slice v a b c = getitem_slice FSeqDataView v a b c) /\
+  (forall v i, ViewGen.Sdv.getitem_int v i = getitem_int v i) /\
+  (forall v i ib, ViewGen.Sdv.get_index v i ib = get_index v i ib) /\
+  (forall v i ib, ViewGen.Sdv.absolute_position v i ib = absolute_position v i ib) /\
+  (forall v i sf, ViewGen.Sdv.relative_position v i sf = relative_position v i sf) /\
+  (forall v, ViewGen.Sdv.len v = vlen v) /\
+  (forall n a b c off, ViewGen.Sdv.init n a b c off = mk_view n a b c off) /\
+  (forall v, ViewGen.Sdv.parent_start v = if is_reversed v && negb (stop v <? 0) then Err E_Other else Ok (parent_start v)) /\
+  (forall v, ViewGen.Sdv.parent_stop v = if is_reversed v && negb (start v <? 0) then Err E_Other else Ok (parent_stop v)).
+Proof. exact SdvEq.kernel_eq_model. Qed.
+
+Theorem gen_sdv_value_init : forall (A : Type) (p : list A) n a b c off v,
+  zlen p = n -> c <> Some 0 -> ViewGen.Sdv.init n a b c off = Ok v ->
+  WF v /\ value v p = py_slice p a b (step_of c).
+Proof. exact (@SdvEq.wf_value_init). Qed.
+
+(** HEADLINE on the generated kernel (with the invariant, so that it chains) *)
+Theorem gen_sdv_value_getitem_slice : forall (A : Type) v (p : list A) a b c v',
+  WF v -> Fits v p -> c <> Some 0 ->
+  ViewGen.Sdv.getitem_slice v a b c = Ok v' ->
+  WF v' /\ Fits v' p /\ value v' p = py_slice (value v p) a b (step_of c).
+Proof. exact (@SdvEq.value_getitem_slice). Qed.
+
+Theorem gen_sdv_value_getitem_int : forall (A : Type) v (p : list A) i,
+  WF v -> zlen p = seq_len v ->
+  match ViewGen.Sdv.getitem_int v i with
+  | Ok v' => WF v' /\ exists y, py_getitem (value v p) i = Some y /\ value v' p = [y]
+  | Err _ => py_getitem (value v p) i = None
+  end.
+Proof. exact (@SdvEq.value_getitem_int). Qed.
+
+(** the asserts in parent_start / parent_stop never fire, and the reported
+    plus-strand segment is what the view displays *)
+Theorem gen_sdv_parent_segment : forall (A : Type) v (p : list A),
+  WF v -> zlen p = seq_len v ->
+  exists ps pe, ViewGen.Sdv.parent_start v = Ok ps /\ ViewGen.Sdv.parent_stop v = Ok pe /\
+    0 <= ps - offset v <= pe - offset v /\ pe - offset v <= seq_len v /\
+    value v p = strided (seg p (ps - offset v) (pe - offset v)) (step v).
+Proof. exact (@SdvEq.parent_segment). Qed.
+
+Theorem gen_sdv_abs_rel_inverse : forall v i, WF v -> 0 <= offset v -> 0 <= i < ViewGen.Sdv.len v ->
+  exists a, ViewGen.Sdv.absolute_position v i false = Ok a /\ ViewGen.Sdv.relative_position v a false = Ok i.
+Proof. exact SdvEq.abs_rel_inverse. Qed.
 
 (** * sequences *)
 
